@@ -311,6 +311,22 @@ func checkC11(r *Run) {
 		base := caseFrom(descgen.Rename(be, baseName+"b"))
 		cases = append(cases, base)
 		occ := descgen.Occurrences(be.File, be.Cfg.Types)
+		// fields below a message-typed custom field are no attributes (the hooks own the whole field)
+		{
+			kept := occ[:0:0]
+			for _, o := range occ {
+				below := false
+				for cp := range be.Cfg.CustomTypes {
+					if strings.HasPrefix(o.Path, cp+".") {
+						below = true
+					}
+				}
+				if !below {
+					kept = append(kept, o)
+				}
+			}
+			occ = kept
+		}
 		if len(occ) == 0 {
 			continue
 		}
